@@ -644,6 +644,15 @@ func genSeq(prop string, seed uint64, run int, p seqProfile, av avoid) *Case {
 				}
 				if g.hasKey() && cr.Chance(0.5) {
 					op = Op{Kind: "deletekey", Key: g.keys[cr.Intn(len(g.keys))]}
+				} else if cr.Chance(0.5) {
+					// ... or one insert / one update through Collection.Insert / Collection.QueryAt
+					if g.hasKey() {
+						op = Op{Kind: "at", Target: Target{K: cr.Intn(64)}, Writes: g.genWrites(cr.Range(1, 3), false)}
+					} else if cr.Chance(0.5) {
+						op = Op{Kind: "insert", Writes: g.genWrites(cr.Range(0, 4), true)}
+					} else {
+						op = Op{Kind: "at", Target: Target{K: cr.Intn(64)}, Writes: g.genWrites(cr.Range(1, 3), false)}
+					}
 				}
 				cs.Steps = append(cs.Steps, Step{Kind: "txn", Txn: &TxnProg{Direct: true, Ops: []Op{op}}})
 				continue
